@@ -1026,7 +1026,7 @@ class C04Check(StreamCheckBase):
         bm = p.get("budget_manager") if isinstance(p.get("budget_manager"), dict) else None
         w = (bm or subject)["params"].get("w", 100)
         budget = (bm["params"]["budget"] or 0.1) if bm else (p.get("budget") or 0.1)
-        n = g.pick([30, 60, 120, 250, 400])
+        n = g.pick([30, 60, 120, 250, 400] + ([1000, 3000] if self.tier == "thorough" and subject["kind"] == "manager" else []))
         family = g.pick(ADVERSARIES)
         sc = {"engine": "streamsim", "mode": "C04", "subject": subject, "family": family}
         corrupt_rate = f.pick([0.0, 0.0, 0.05, 0.3])
@@ -1331,7 +1331,7 @@ class C10Check(StreamCheckBase):
         bm = p.get("budget_manager") if isinstance(p.get("budget_manager"), dict) else None
         w = (bm or subject)["params"].get("w", p.get("window_size", p.get("cognition_window_size", 10)))
         budget = (bm["params"]["budget"] or 0.1) if bm else (p.get("budget") or 0.1)
-        n = g.pick([12, 30, 60, 120, 250])
+        n = g.pick([12, 30, 60, 120, 250] + ([1000, 2500] if self.tier == "thorough" and subject["kind"] == "manager" else []))
         if subject["cls"] in COGNITIVE + ["StreamDensityBasedAL"]:
             n = min(n, 120)
         family = g.pick(ADVERSARIES)
